@@ -750,6 +750,9 @@ def move_before_loop(source: str) -> str:
             if header_required & node_created_names:
                 continue
 
+            if header_created & node_created_names:
+                continue  # i.e. an assignment to the loop variable
+
             new_node = copy.copy(node)
             new_node.lineno = scope.lineno - 1
             new_node.col_offset = scope.col_offset
